@@ -76,11 +76,12 @@ class Check(BaseCheck):
         # beltrami + linear beltrami solver
         for k in range(8 if self.quick else 80):
             v, t = planar_mesh(rng)
-            a = complex(rng.normal(), rng.normal()); b = 0.6 * abs(a) * rng.uniform(0, 1) * np.exp(1j * rng.uniform(0, 6.28))
+            a = complex(rng.normal(), rng.normal()) * float(rng.choice([1.0, 1.0, 1e-7, 1e4]))      # the coefficient is scale free
+            b = 0.6 * abs(a) * rng.uniform(0, 1) * np.exp(1j * rng.uniform(0, 6.28))
             z = v[:, 0] + 1j * v[:, 1]
             wz = a * z + b * np.conj(z)
             Q = gen.random_rotation(rng, reflect=False)
-            emb = np.column_stack([wz.real, wz.imag, np.zeros(len(v))]) @ Q.T + rng.uniform(-1, 1, 3)
+            emb = np.column_stack([wz.real, wz.imag, np.zeros(len(v))]) @ Q.T + abs(a) * rng.uniform(-1, 1, 3)
             case = dict(kind="beltrami", v=v, t=t, a=[a.real, a.imag], b=[b.real, b.imag], emb=emb, name="planar")
             stats.case(core.mesh_key(v, t, a, b), cls=["beltrami"], sample=dict(nv=len(v), a=str(a), b=str(b)) if k == 0 else None)
             with core.quiet():
@@ -167,11 +168,12 @@ class Check(BaseCheck):
             yield dict(kind="stereo", u=u, w=rng.normal(size=(8, 2)))
         for k in range(8 if self.quick else 40):
             v, t = planar_mesh(rng)
-            a = complex(rng.normal(), rng.normal()); b = 0.6 * abs(a) * rng.uniform(0, 1) * np.exp(1j * rng.uniform(0, 6.28))
+            a = complex(rng.normal(), rng.normal()) * float(rng.choice([1.0, 1.0, 1e-7, 1e4]))      # the coefficient is scale free
+            b = 0.6 * abs(a) * rng.uniform(0, 1) * np.exp(1j * rng.uniform(0, 6.28))
             Q = gen.random_rotation(rng, reflect=False)
             wz = a * (v[:, 0] + 1j * v[:, 1]) + b * np.conj(v[:, 0] + 1j * v[:, 1])
             yield dict(kind="beltrami", v=v, t=t, a=[a.real, a.imag], b=[b.real, b.imag],
-                       emb=np.column_stack([wz.real, wz.imag, np.zeros(len(v))]) @ Q.T + rng.uniform(-1, 1, 3), name="planar")
+                       emb=np.column_stack([wz.real, wz.imag, np.zeros(len(v))]) @ Q.T + abs(a) * rng.uniform(-1, 1, 3), name="planar")
         for case in genus0(self.seed + 142, 2 if self.quick else 10):
             yield dict(case, kind="scm")
         yield dict(kind="guard")
@@ -237,9 +239,9 @@ class Check(BaseCheck):
             return core.Violation("orientation", "outward-oriented input maps to a sphere mesh of volume %.3g with %d of %d triangles inward" % (vol, nflip, len(m.t)),
                                   dict(case, input_class="coarse-mesh" if len(v) < 100 else None))
         rng = gen.rng_for(self.seed, "c18o", len(v))
-        Q = gen.random_rotation(rng, reflect=False); sc = float(rng.uniform(0.5, 2.0))
+        Q = gen.random_rotation(rng, reflect=False); sc = float(rng.choice([rng.uniform(0.5, 2.0), 1e-7, 1e4]))
         with core.quiet():
-            m2 = TriaMesh(sc * (m.v @ Q.T) + rng.uniform(-1, 1, 3), m.t)
+            m2 = TriaMesh(sc * (m.v @ Q.T + rng.uniform(-1, 1, 3)), m.t)
         r2 = core.call(conformal.spherical_conformal_map, m2)
         if r2[0] != "ok" or np.max(np.abs(r2[1] - s)) > 1e-5:
             return core.Violation("similarity", "map changes under rotation / translation / scaling (max dev %s)" % (np.max(np.abs(r2[1] - s)) if r2[0] == "ok" else r2[1:],), case)
